@@ -83,13 +83,23 @@ func run(c *vf.Ctx) {
 		for _, r := range rps {
 			for _, p := range rps {
 				for _, k := range kls {
-					// quick tier: where a whole scrypt is computed with N >= 1024 (valid N, r, p)
-					// p is restricted to {1,2,3,8} and keyLen to {-1,0,1,32,65,300}; everything
-					// else is the full product. thorough: full product everywhere.
-					if !c.Thorough && n >= 1024 && n <= 4096 && n&(n-1) == 0 && r >= 1 && r <= 8 && p >= 1 && p <= 8 {
-						if !(p <= 3 || p == 8) || !(k == -1 || k == 0 || k == 1 || k == 32 || k == 65 || k == 300) {
-							reduced++
-							continue
+					// Where a whole scrypt is computed (valid N, r, p) the product is thinned for
+					// the expensive N: quick restricts N in 1024..4096 to p in {1,2,3,8} and keyLen
+					// in {-1,0,1,32,65,300}; thorough runs the full product up to N = 4096 and
+					// restricts N > 4096 to r in {1,2,8}, p in {1,2}, keyLen in {0,32,65}.
+					// Everything else (all invalid r/p/N combinations) is the full product.
+					if n >= 1024 && n&(n-1) == 0 && n <= 1<<20 && r >= 1 && r <= 1<<10 && p >= 1 && p <= 1<<10 {
+						if n <= 4096 && !c.Thorough {
+							if !(p <= 3 || p == 8) || !(k == -1 || k == 0 || k == 1 || k == 32 || k == 65 || k == 300) {
+								reduced++
+								continue
+							}
+						}
+						if n > 4096 {
+							if !(r == 1 || r == 2 || r == 8) || p > 2 || !(k == 0 || k == 32 || k == 65) {
+								reduced++
+								continue
+							}
 						}
 					}
 					grid = append(grid, tuple{n, r, p, k})
@@ -104,7 +114,7 @@ func run(c *vf.Ctx) {
 			tuple{2, 1, 1<<30 - 1, k}, tuple{2, 1, 1 << 30, k}, tuple{2, 1<<30 + 1, 1, k}, tuple{16, 3, 1<<30/3 + 1, k}, tuple{16, 3, 1 << 30 / 3, k},
 			tuple{2, maxInt/256 + 1, 1, k}, tuple{2, maxInt / 256, 1, k}, tuple{1 << 56, 1, 1, k}, tuple{1 << 57, 1, 1, k}, tuple{1 << 40, 7, 1, k})
 	}
-	c.Rule(fmt.Sprintf("full product N(%d values: minInt,-4..8,12,16,24,32..4096 powers of two,4097,2^31,2^31+1,2^62,maxInt) x r,p(%d values each: minInt,-2..8,2^30,maxInt/128,maxInt) x keyLen(%d values: minInt,-5..0,1,31,32,33,64,65,300) plus %d tuples around r*p=2^30 and the int-overflow guards; quick restricts p to {1,2,3,8} and keyLen to {-1,0,1,32,65,300} where N in 1024..4096 with valid r,p (a whole scrypt is computed there), thorough runs the full product and adds N up to 65537, r,p up to 17, more key lengths; "+
+	c.Rule(fmt.Sprintf("full product N(%d values: minInt,-4..8,12,16,24,32..4096 powers of two,4097,2^31,2^31+1,2^62,maxInt) x r,p(%d values each: minInt,-2..8,2^30,maxInt/128,maxInt) x keyLen(%d values: minInt,-5..0,1,31,32,33,64,65,300) plus %d tuples around r*p=2^30 and the int-overflow guards; quick restricts p to {1,2,3,8} and keyLen to {-1,0,1,32,65,300} where N in 1024..4096 with valid r,p (a whole scrypt is computed there); thorough runs the full product there and adds N in {8192,16384,65535,65536,65537} (valid ones with r in {1,2,8}, p in {1,2}, keyLen in {0,32,65}), r,p in {9,15,16,17}, keyLen in {2,63,96,97,1024,4097}; "+
 		"every tuple is executed on the real scrypt.Key; non-trivial = distinct RFC-valid tuples compared byte for byte with the RFC 7914 model; "+
 		"RFC-invalid tuples must give (nil, error); tuples whose magnitudes could allocate more than 256 MiB run in a child process under RLIMIT_AS",
 		len(Ns), len(rps), len(kls), 14*4))
@@ -112,7 +122,7 @@ func run(c *vf.Ctx) {
 	c.Assume("RFC-valid tuples needing more than 256 MiB are executed but not judged (property excludes arguments that exhaust memory); the RFC bound N < 2^(16r) is treated as optional (key compared if one is returned, error accepted)")
 	c.Assume("password/salt values come from the value alphabet; they only enter scrypt through PBKDF2-HMAC-SHA256")
 	c.Set("grid_tuples", len(grid))
-	c.Set("product_tuples_left_to_thorough", reduced)
+	c.Set("product_tuples_thinned_out", reduced)
 
 	var small, large []int
 	unjudged, unjudgedRun := 0, 0
